@@ -2,39 +2,33 @@
    model, shortcuts.  Statements only; each is closed by `exact` of a lemma proved in proofs/.
 
    Model: models/SmtLibSolver.v (wrapper state machine `api_step`, strict solver `spec_step`,
-   reply pipe `sync_flags`).  Four clauses of the property are FALSE of the faithful model:
-   they appear as `_refuted` theorems with their witness histories (replayed on the real code by
-   harness/c17.py: findings), next to the `_partial` theorems with the side condition under
-   which the clause holds for EVERY history:
-     history_legal i d h  =  every push/pop moves ONE level, no reset_assertions, never pop
-                             below level 0, value queries mention only symbols of live
-                             assertions, exit (if any) is the last call;
-     values_last false h  =  all get_value / get_model calls come after all other calls. *)
+   reply pipe `sync_flags`), of pysmt/smtlib/solver.py AFTER the fixes C17 a-d (push/pop n
+   levels, get_model over all levels, reset_assertions resets the record, get-value consumes its
+   line).  Before them four clauses were refuted (see known_findings.json, status fixed); the
+   theorems below are now the full clauses, for EVERY history with
+     history_legal i d h = never pop below level 0 (push(n)/pop(n) with any n, reset_assertions,
+                           one-shot checks, get_model anywhere), exit (if any) last, and get_value
+                           queries mention only symbols of live assertions.
+   The last condition is what is left of the `_refuted` discipline: get_value does not declare
+   the symbols of its term (C17_stream_legal_refuted_value, open finding); without get_value
+   calls every user-legal history qualifies (C17_stream_legal_user). *)
 From Coq Require Import Bool List.
 From PySMT.models Require Import SmtLibSolver.
 From PySMT.proofs Require Import SmtLibSolver_proofs.
 Import ListNotations.
 
 (* ---- the command stream is legal SMT-LIB ---------------------------------------------- *)
-Theorem C17_stream_legal_partial : forall decide h, history_legal ideal_init 0 h = true ->
+Theorem C17_stream_legal : forall decide h, history_legal ideal_init 0 h = true ->
   accepted decide (stream h) = true /\ werr (final h) = false.
-Proof. exact stream_legal_partial. Qed.
-(* full clause (all user-legal histories) refuted: *)
+Proof. exact stream_legal. Qed.
+Theorem C17_stream_legal_user : forall decide h, user_legal 0 h = true ->
+  forallb no_value_query h = true ->
+  accepted decide (stream h) = true /\ werr (final h) = false.
+Proof. exact stream_legal_user. Qed.
+(* the clause without the condition on get_value is refuted: *)
 Theorem C17_stream_legal_refuted :
   exists h, user_legal 0 h = true /\ forall decide, legal_and_quiet decide h = false.
 Proof. exact stream_legal_refuted. Qed.
-Theorem C17_stream_legal_refuted_pop_n : user_legal 0 pop2_witness = true /\
-  forall decide, accepted decide (stream pop2_witness) = false.
-Proof. exact stream_legal_refuted_pop_n. Qed.
-Theorem C17_stream_legal_refuted_push_n : user_legal 0 push2_witness = true /\
-  werr (final push2_witness) = true.
-Proof. exact stream_legal_refuted_push_n. Qed.
-Theorem C17_stream_legal_refuted_redeclare : user_legal 0 redeclare_witness = true /\
-  forall decide, accepted decide (stream redeclare_witness) = false.
-Proof. exact stream_legal_refuted_redeclare. Qed.
-Theorem C17_stream_legal_refuted_reset : user_legal 0 reset_witness = true /\
-  forall decide, accepted decide (stream reset_witness) = false.
-Proof. exact stream_legal_refuted_reset. Qed.
 Theorem C17_stream_legal_refuted_value : user_legal 0 value_witness = true /\
   forall decide, accepted decide (stream value_witness) = false.
 Proof. exact stream_legal_refuted_value. Qed.
@@ -43,14 +37,14 @@ Theorem C17_spec_scoping : forall decide cs s, wf_levels s -> wf_levels (fst (sp
 Proof. exact spec_exec_wf. Qed.
 
 (* ---- each reply is attributed to the command that caused it ---------------------------- *)
-(* exact criterion, for every command stream *)
+(* exact criterion, for every command stream: only commands sent after `exit` are out of step *)
 Theorem C17_replies_in_sync_iff : forall cmds, in_sync cmds = sync_ok PClean cmds.
 Proof. exact in_sync_iff. Qed.
-Theorem C17_replies_in_sync_partial : forall h, values_last false h = true -> in_sync (stream h) = true.
-Proof. exact replies_in_sync_partial. Qed.
-Theorem C17_replies_in_sync_refuted :
-  exists h, user_legal 0 h = true /\ unit_levels h = true /\ in_sync (stream h) = false.
-Proof. exact replies_in_sync_refuted. Qed.
+(* every history (exit, which ends the solver process, can only come last) *)
+Theorem C17_replies_in_sync : forall h, exit_last h = true -> in_sync (stream h) = true.
+Proof. exact replies_in_sync. Qed.
+Theorem C17_user_legal_exit_last : forall h d, user_legal d h = true -> exit_last h = true.
+Proof. exact user_legal_exit_last. Qed.
 
 (* ---- the verdict returned is the one the solver gave, about the assertions the user means - *)
 Theorem C17_verdict_faithful : forall decide h a, history_legal ideal_init 0 (h ++ [a]) = true ->
@@ -89,32 +83,19 @@ Theorem C17_shortcut_truth : forall (interp : Type) (holds : interp -> form -> b
     end.
 Proof. exact shortcut_truth. Qed.
 
-(* ---- after sat, the model covers every symbol of the live assertions -------------------- *)
-Theorem C17_model_complete_partial : forall h, history_legal ideal_init 0 h = true ->
-  depth_run 0 h = 0 -> pending (final h) = false ->
+(* ---- after sat, the model covers every symbol of the live assertions, at every depth ----- *)
+Theorem C17_model_complete : forall h, history_legal ideal_init 0 h = true ->
   forall f x, In f (ideal_live (ideal_run ideal_init h)) -> In x (fvs f) ->
     In x (model_queries (final h)).
-Proof. exact (model_complete_partial (fun _ => true)). Qed.
-Theorem C17_model_complete_refuted :
-  exists h f x, history_legal ideal_init 0 h = true /\
-    In f (ideal_live (ideal_run ideal_init h)) /\ In x (fvs f) /\
-    ~ In x (model_queries (final h)).
-Proof. exact model_complete_refuted. Qed.
-Theorem C17_model_complete_refuted_pending :
-  history_legal ideal_init 0 model_witness_pending = true /\
-  depth_run 0 model_witness_pending = 0 /\
-  In X (ideal_live (ideal_run ideal_init model_witness_pending)) /\
-  ~ In 0 (model_queries (final model_witness_pending)).
-Proof. exact model_complete_refuted_pending. Qed.
+Proof. exact (model_complete (fun _ => true)). Qed.
 
-Print Assumptions C17_stream_legal_partial.
+Print Assumptions C17_stream_legal.
+Print Assumptions C17_stream_legal_user.
 Print Assumptions C17_stream_legal_refuted.
 Print Assumptions C17_spec_scoping.
 Print Assumptions C17_replies_in_sync_iff.
-Print Assumptions C17_replies_in_sync_partial.
-Print Assumptions C17_replies_in_sync_refuted.
+Print Assumptions C17_replies_in_sync.
 Print Assumptions C17_verdict_faithful.
 Print Assumptions C17_state_tracks_live_assertions.
 Print Assumptions C17_shortcut_truth.
-Print Assumptions C17_model_complete_partial.
-Print Assumptions C17_model_complete_refuted.
+Print Assumptions C17_model_complete.
